@@ -68,3 +68,66 @@ C18_TAINT_TRIAGE = {
     'midnight_zkir::utils::insert_many|assert|assert_eq!(!(*left_val == *right_val))|IrType::Bytes.0':
         'Load produces one value per output name by construction (chunks(n) of n * outputs.len() bytes); all other operations have a fixed output arity pinned by C18.R2',
 }
+
+# ---------------------------------------------------------------- schedule engine (C01/C14/C20)
+SCHED_FIELD_ALIAS = {
+    # one commitment / polynomial per permutation column
+    'permutation::VerifyingKey.commitments': 'permutation::Argument.columns',
+    'permutation::ProvingKey.polys': 'permutation::Argument.columns',
+    'permutation::ProvingKey.permutations': 'permutation::Argument.columns',
+}
+SCHED_COUNT_ALIAS = {
+    # documented invariant of ConstraintSystem: "Should have same length as num_advice_columns / num_challenges"
+    'circuit::ConstraintSystem.num_advice_columns': 'circuit::ConstraintSystem.advice_column_phase',
+    'circuit::ConstraintSystem.num_challenges': 'circuit::ConstraintSystem.challenge_phase',
+}
+SCHED_PASSTHROUGH = {'midnight_proofs::poly::batch_invert_rational'}
+SCHED_DOM_EQUIV = {
+    # h(X) is truncated to (n-1)*get_quotient_poly_degree() coefficients and cut by chunks_exact(n-1)
+    'chunks(call(EvaluationDomain::extended_to_coeff))': 'call(EvaluationDomain::get_quotient_poly_degree)',
+}
+
+
+def golden_plonk():
+    """Golden Fiat–Shamir schedule (prover view), written from the protocol: halo2 multipoint PLONK + vk representative,
+    committed instances, length-prefixed plain instances, trash argument.  NOT copied from either implementation."""
+    S, Pt = 'F', 'Commitment'
+    def op(k, t): return ('op', k, t, 'golden')
+    def loop(d, *body): return ('loop', d, ('seq', list(body)))
+    CS = 'circuit::ConstraintSystem.'
+    PH = 'call(ConstraintSystem::phases)'
+    return ('seq', [
+        op('common', S),                                                     # vk representative
+        loop('PROOFS',
+             loop('COMMITTED_COLS', op('common', Pt)),
+             loop('PLAIN_COLS', op('common', S), loop('INST_VALUES', op('common', S)))),
+        loop(PH,
+             loop('PROOFS', loop(f'filter({CS}advice_column_phase,(item<{PH}> == item<{CS}advice_column_phase>))', op('write', Pt))),
+             loop(f'filter({CS}challenge_phase,(item<{PH}> == item<{CS}challenge_phase>))', op('squeeze', S))),
+        op('squeeze', S),                                                    # theta
+        loop('PROOFS', loop(CS + 'lookups', op('write', Pt), op('write', Pt))),
+        op('squeeze', S), op('squeeze', S),                                  # beta, gamma
+        loop('PROOFS', loop('chunks(permutation::Argument.columns)', op('write', Pt))),
+        loop('PROOFS', loop(CS + 'lookups', op('write', Pt))),
+        op('squeeze', S),                                                    # trash challenge
+        loop('PROOFS', loop(CS + 'trashcans', op('write', Pt))),
+        op('write', Pt),                                                     # vanishing random poly
+        op('squeeze', S),                                                    # y
+        loop('call(EvaluationDomain::get_quotient_poly_degree)', op('write', Pt)),
+        op('squeeze', S),                                                    # x
+        loop('PROOFS', loop(f'filter({CS}instance_queries,(L:midnight_proofs::plonk::circuit::Column.index() < len<COMMITTED_COLS>))', op('write', S))),
+        loop('PROOFS', loop(CS + 'advice_queries', op('write', S))),
+        loop(CS + 'fixed_queries', op('write', S)),
+        op('write', S),                                                      # random_eval
+        loop('permutation::Argument.columns', op('write', S)),
+        loop('PROOFS', loop('chunks(permutation::Argument.columns)', op('write', S), op('write', S),
+                            ('alt', '(ITER.len() > i:0)', [op('write', S), ('seq', [])]))),
+        loop('PROOFS', loop(CS + 'lookups', *[op('write', S)] * 5)),
+        loop('PROOFS', loop(CS + 'trashcans', op('write', S))),
+        op('squeeze', S), op('squeeze', S),                                  # x1, x2
+        op('write', Pt),                                                     # f commitment
+        op('squeeze', S),                                                    # x3
+        loop('range(L:alloc::vec::Vec.len())', op('write', S)),              # one evaluation per point set
+        op('squeeze', S),                                                    # x4
+        op('write', Pt),                                                     # pi
+    ])
